@@ -126,28 +126,40 @@ structure GeoOut (σ S D : Type) where
   dist : D
   st : σ
 
-/-- the `do { … } while (dist >= tolerance)` loop.  `prev` is `previous`, `dist`/`total` the loop
-variables, `mx` is `max = dist₀ * lambda_`.  Returns the states pushed from this iteration on. -/
+/-- one pass through the body of the `do { … } while` loop, up to the point where the new state is
+accepted: `error (why, σ)` for the five `break`s, `ok (scratch, σ, newDist, total)` otherwise.
+`prev` is `previous`, `dist`/`total` the loop variables, `mx` is `max = dist₀ * lambda_`. -/
+def geoStep (A : Arith D) (Am : Ambient S D) (Rs : Resid R D) (O : Oracle σ S R) (P : GeoParams D)
+    (interpolate : Bool) (to : S) (mx : D) (s : σ) (prev : S) (dist total : D) :
+    Except (Exit × σ) (S × σ × D × D) :=
+  -- WrapperStateSpace::interpolate(previous, to, delta_ / dist, scratch); project(scratch)
+  let pr := project A Rs O P.tolSq P.maxIter s (Am.interp prev to (A.div P.delta dist))
+  if pr.1 = false then .error (.projFail, pr.2.2) else
+  -- `interpolate || svc->isValid(scratch)`
+  let vr := if interpolate then (true, pr.2.2) else O.valid pr.2.2 pr.2.1
+  if vr.1 = false then .error (.invalid, vr.2) else
+  -- `(step = distance(previous, scratch)) > lambda_ * delta_`
+  if A.lt (A.mul P.lambda P.delta) (Am.dist prev pr.2.1) then .error (.deviated, vr.2) else
+  -- `total += step; if (total > max) break;`
+  if A.lt mx (A.add total (Am.dist prev pr.2.1)) then .error (.wandered, vr.2) else
+  -- `newDist = distance(scratch, to); if (newDist >= dist) break;`
+  if A.le dist (Am.dist pr.2.1 to) then .error (.noProgress, vr.2) else
+  .ok (pr.2.1, vr.2, Am.dist pr.2.1 to, A.add total (Am.dist prev pr.2.1))
+
+/-- the `do { … } while (dist >= tolerance)` loop.  Returns the states pushed from this iteration
+on.  Every way out returns `dist <= tolerance` for the current value of `dist`. -/
 def geoLoop (A : Arith D) (Am : Ambient S D) (Rs : Resid R D) (O : Oracle σ S R) (P : GeoParams D)
     (interpolate : Bool) (to : S) (mx : D) : Nat → σ → S → D → D → GeoOut σ S D
   | 0, s, _, dist, _ => ⟨.fuel, false, [], dist, s⟩
   | k + 1, s, prev, dist, total =>
-    -- WrapperStateSpace::interpolate(previous, to, delta_ / dist, scratch); project(scratch)
-    let pr := project A Rs O P.tolSq P.maxIter s (Am.interp prev to (A.div P.delta dist))
-    if pr.1 = false then ⟨.projFail, A.le dist P.delta, [], dist, pr.2.2⟩ else
-    let scratch := pr.2.1
-    let vr := if interpolate then (true, pr.2.2) else O.valid pr.2.2 scratch
-    if vr.1 = false then ⟨.invalid, A.le dist P.delta, [], dist, vr.2⟩ else
-    let step := Am.dist prev scratch
-    if A.lt (A.mul P.lambda P.delta) step then ⟨.deviated, A.le dist P.delta, [], dist, vr.2⟩ else
-    let total' := A.add total step
-    if A.lt mx total' then ⟨.wandered, A.le dist P.delta, [], dist, vr.2⟩ else
-    let newDist := Am.dist scratch to
-    if A.le dist newDist then ⟨.noProgress, A.le dist P.delta, [], dist, vr.2⟩ else
-    if A.le P.delta newDist then
-      let r := geoLoop A Am Rs O P interpolate to mx k vr.2 scratch newDist total'
-      { r with states := scratch :: r.states }
-    else ⟨.reached, A.le newDist P.delta, [scratch], newDist, vr.2⟩
+    match geoStep A Am Rs O P interpolate to mx s prev dist total with
+    | .error (why, s') => ⟨why, A.le dist P.delta, [], dist, s'⟩
+    | .ok (scratch, s', newDist, total') =>
+      -- `dist = newDist; copyState(previous, scratch); geodesic->push_back(scratch)`
+      if A.le P.delta newDist then            -- `while (dist >= tolerance)`
+        let r := geoLoop A Am Rs O P interpolate to mx k s' scratch newDist total'
+        { r with states := scratch :: r.states }
+      else ⟨.reached, A.le newDist P.delta, [scratch], newDist, s'⟩
 
 /-- `ProjectedStateSpace::discreteGeodesic(from, to, interpolate, &geodesic)`. -/
 def discreteGeodesic (A : Arith D) (Am : Ambient S D) (Rs : Resid R D) (O : Oracle σ S R)
@@ -180,12 +192,14 @@ def sumsOf (A : Arith D) (Am : Ambient S D) : List S → List D
   | [] => []
   | x :: xs => A.zero :: partialSums A Am x xs A.zero
 
-/-- `while (i < (n - 1) && (d[i] / last) <= t) i++;` -/
-def searchIdx (A : Arith D) (d : Array D) (last t : D) (i : Nat) : Nat :=
-  if h : i + 1 < d.size then
-    if A.le (A.div d[i] last) t then searchIdx A d last t (i + 1) else i
-  else i
-termination_by d.size - i
+/-- `while (i < (n - 1) && (d[i] / last) <= t) i++;` — structural on a fuel argument that is
+passed `d.size` (the loop makes at most `n - 1` increments, so the fuel never runs out). -/
+def searchIdx (A : Arith D) (d : Array D) (last t : D) : Nat → Nat → Nat
+  | 0, i => i
+  | fuel + 1, i =>
+    if h : i + 1 < d.size then
+      if A.le (A.div d[i] last) t then searchIdx A d last t fuel (i + 1) else i
+    else i
 
 /-- index returned by `ConstrainedStateSpace::geodesicInterpolate`; `none` = the C++ code would
 read or write outside `d`/`geodesic`. -/
@@ -198,7 +212,7 @@ def geodesicInterpolateIdx (A : Arith D) (Am : Ambient S D) (g : List S) (t : D)
   | some last =>
     if A.le last A.eps then some 0
     else
-      let i := searchIdx A d last t 0
+      let i := searchIdx A d last t d.size 0
       match d[i]? with
       | none => none
       | some di =>
